@@ -171,6 +171,7 @@ fn plan_cmd(args: &[String]) {
                     "malformed" => prog::gen_random(&mut r, true),
                     "funnel" => prog::gen_funnel(&mut r),
                     "widestage" => prog::gen_widestage(&mut r),
+                    "saturated" => prog::gen_saturated(&mut r),
                     "chain" => prog::gen_chain(&mut r),
                     _ => prog::gen_random(&mut r, false),
                 };
